@@ -48,6 +48,27 @@ func (c *Ctx) newFacts(fn *ssa.Function) *Facts {
 			count[l.Term]++
 			conds[l.Term] = append(conds[l.Term], iff.Cond)
 		}
+		// conditions folded into a named boolean (x := a || b) are branch conditions too
+		for _, in := range b.Instrs {
+			ph, ok := in.(*ssa.Phi)
+			if !ok {
+				break
+			}
+			if bt, ok := ph.Type().Underlying().(*types.Basic); !ok || bt.Info()&types.IsBoolean == 0 {
+				continue
+			}
+			for _, e := range ph.Edges {
+				if _, isC := e.(*ssa.Const); isC {
+					continue
+				}
+				if _, isP := e.(*ssa.Phi); isP {
+					continue
+				}
+				l := c.cond(e)
+				count[l.Term]++
+				conds[l.Term] = append(conds[l.Term], e)
+			}
+		}
 	}
 	for _, b := range c.blocks(fn) {
 		if len(b.Instrs) == 0 {
@@ -260,6 +281,23 @@ func (f *Facts) edge(b *ssa.BasicBlock, succ int, state uint64) (uint64, bool) {
 	if !ok {
 		return state, true
 	}
+	i, ok := f.idx[l.Term]
+	if !ok {
+		return state, true
+	}
+	want := 1
+	if !l.Pos {
+		want = 2
+	}
+	cur := f.get(state, i)
+	if cur != 0 && cur != want {
+		return state, false
+	}
+	return f.set(state, i, want), true
+}
+
+// lit: the path has just witnessed literal l (possibly through a named boolean).
+func (f *Facts) lit(l Lit, state uint64) (uint64, bool) {
 	i, ok := f.idx[l.Term]
 	if !ok {
 		return state, true
